@@ -133,12 +133,21 @@ def long_lived_query(om, spec, C):
     x = let(om.Org, None, name="x")
     q = an(entity(x)) if form == "entity" else an(entity(x, x.name != "nobody")) if form == "cond" else an(set_of([x, x.name]))
     orgs = [om.Org(f"lq{i}") for i in range(n)]
+    a_ = b_ = None
+    if spec.get("k", 0) % 2 == 0:
+        # reference cycles among the instances (part_of / has_part are inverse: both ends refer to each other), so
+        # only the collector can reclaim them
+        for a_, b_ in zip(orgs[n // 2:], orgs[n // 2 + 1:]):
+            a_.part_of.append(b_)
+        for a_, b_ in zip(orgs[: n // 2], orgs[1: n // 2]):
+            a_.part_of.append(b_)
+        C["long_lived_queries_with_cycles"] += 1
     first = list(q.evaluate())
     del first
     keep = orgs[: n // 2]
     dropped = [weakref.ref(o) for o in orgs[n // 2:]]
     dropped_names = {o.name for o in orgs[n // 2:]}
-    del orgs
+    del orgs, a_, b_
     gc.collect()
     second = list(q.evaluate())
     second_names = [(r.name if form != "setof" else r[x].name) for r in second]
